@@ -11,7 +11,9 @@ pub mod util;
 pub mod c01;
 #[cfg(feature = "c02")]
 pub mod c02;
-#[cfg(any(feature = "c04", feature = "c05", feature = "c19"))]
+#[cfg(feature = "c03")]
+pub mod c03;
+#[cfg(any(feature = "c03", feature = "c04", feature = "c05", feature = "c19"))]
 pub mod c04;
 #[cfg(feature = "c05")]
 pub mod c05;
